@@ -2,6 +2,7 @@
 """Prints the markdown table of DESIGN.md section 8 from /verif/seeded/*/meta.json."""
 import json,glob,os,re
 rows=[]
+desc=json.load(open('/verif/seeded/descriptions.json'))
 for d in sorted(glob.glob('/verif/seeded/*/')):
     name=os.path.basename(d.rstrip('/'))
     try: m=json.load(open(d+'meta.json'))
@@ -15,7 +16,7 @@ for d in sorted(glob.glob('/verif/seeded/*/')):
             para=para.strip()
             if para and not para.startswith('#'):
                 what=' '.join(para.split())[:230]; break
-    if m.get('description'): what=m['description']
+    if name in desc: what=desc[name]
     fired=' '.join(m.get('quick_checks_that_fire',[])) or '-'
     rows.append(f"| {name} | {m['property_broken']} | {what} | {fired} | {'yes' if m.get('target_detected') else 'NO'} |")
 print("| seed | breaks | change (from the author's notes) | quick checks that fire | own check fires |")
